@@ -44,12 +44,13 @@ def run(chk):
     recs = core.run_driver('align', tier=chk.tier, seed=chk.seed, args=dict(prop='C14'))
     chk.validate('aligners', 'Trace_Align', 'Trace_Align.cfg', recs, driver='align', jobs=12)
     # ---- binding demonstration: corrupt one mapping entry of an accepted record ----
-    good = [r for r in recs if r['kind'] == 'apply' and r['exc'] == '' and len(r['mask']) >= 2][0]
+    goods = [r for r in recs if r['kind'] == 'apply' and r['exc'] == '' and len(r['mask']) >= 2]
+    good = goods[0]
 
     def corrupt(r):
         r['mapping'][0][0] = r['mapping'][1][0]
         return r
-    core.binding_demo(chk, 'bind-perm', 'Trace_Align', 'Trace_Align.cfg', good, corrupt, 'perm')
+    core.binding_demo(chk, 'bind-perm', 'Trace_Align', 'Trace_Align.cfg', good, corrupt, 'perm', candidates=goods[1:])
     chk.assumptions = ['row identity of masks is decided by byte equality of rows (driver)',
                        'scores of float matrices enter TLC as dense ranks (greedy) / exact Fraction gaps (optimal)']
 
